@@ -12,7 +12,7 @@ import (
 // yreflect.AppendIntoOrderedMap) is either fresh (reflect.New/Zero/Make*, or the destination's
 // own value) or a source-derived value proved non-reference by a dominating guard.
 
-var copyFamily = []string{"copyStruct", "copyPtrField", "copyInterfaceField", "copyMapField", "copyOrderedMap", "copySliceField"}
+var copyFamily = []string{"copyStruct", "copyPtrField", "copyInterfaceField", "copyMapField", "copyOrderedMap", "copySliceField", "copyBinaryField"}
 
 var scalarKinds = map[string]bool{
 	"reflect.Bool": true, "reflect.Int": true, "reflect.Int8": true, "reflect.Int16": true, "reflect.Int32": true, "reflect.Int64": true,
